@@ -820,12 +820,27 @@ def plan_c16(run_seed):
             if not cfg["anon"] and t.chance(0.25):
                 kind = t.weighted([("good", 4), ("missing", 1), ("noattr", 1), ("raises", 2)])
                 e["pulses"] = {"mod": "%s_%d" % (modbase, i), "relative": t.chance(0.6), "kind": kind, "j": t.randrange(2)}
-        if t.chance(0.12) and e["prog"]["lets"]:
+        if t.chance(0.18) and e["prog"]["lets"]:
             # unusual but lexically legal: an integer let that is 0 or negative (it may be a
             # slice step, a size, an index, a count)
             ints = [x for x in e["prog"]["lets"] if isinstance(x[1], int)]
+            structural = set()
+            for m in e["prog"]["maps"]:
+                for k in ("idx", "start", "stop", "step"):
+                    if isinstance(m.get(k), str):
+                        structural.add(m[k])
+            for st_ in progast.all_statements(e["prog"]):
+                if st_["k"] in ("loop", "sub") and isinstance(st_.get("count"), str):
+                    structural.add(st_["count"])
+                if st_["k"] == "gate":
+                    for a in st_["args"]:
+                        if a[0] == "item" and isinstance(a[2], str):
+                            structural.add(a[2])
+            if e["prog"].get("reg") and isinstance(e["prog"]["reg"][1], str):
+                structural.add(e["prog"]["reg"][1])
+            pref = [x for x in ints if x[0] in structural]
             if ints:
-                t.choice(ints)[1] = t.choice([0, 0, -1, -2])
+                (t.choice(pref) if pref and t.chance(0.85) else t.choice(ints))[1] = t.choice([0, 0, -1, -2])
                 e["exec"] = False
         if t.chance(0.12):
             # unusual but lexically legal: a negative loop or subcircuit count
@@ -1280,7 +1295,8 @@ def plan_c10(run_seed):
     st = Streams(run_seed)
     t = st.get("ops")
     profile = "general" if t.chance(0.65) else "exec"
-    prog, ov, cfg = make_program(st, "t0", profile, "C10")
+    force = {"p_lets": 0.9, "p_let_use": 0.6, "p_macros": 0.9, "p_override": 0.7, "p_call": 0.3} if t.chance(0.35) else None
+    prog, ov, cfg = make_program(st, "t0", profile, "C10", force)
     # any override dictionary over the declared lets (same type), not only the validated one
     O = dict(ov or {})
     if t.chance(0.3):
@@ -1297,6 +1313,13 @@ def plan_c10(run_seed):
             seqs.append(base)
         else:
             seqs.append([t.choice(C10_TOKENS) for _ in range(t.randint(1, 6))])
+    # every pair of passes in both orders
+    a_, b_ = t.sample(["M", "L", "S", "A"], 2)
+    seqs.append([a_, b_])
+    seqs.append([b_, a_])
+    if t.chance(0.5):
+        seqs.append(["M", "L"])
+        seqs.append(["L", "M"])
     if t.chance(0.5):
         perm = ["M", "L", "S", "A"]
         t.shuffle(perm)
